@@ -323,6 +323,24 @@ def summarise(case):
     return case
 
 
+def setup_worker():
+    """Warm regime: the module-level default application lives as long as the process, so its
+    lazily created state (cached_property _hooks, its route) must be in steady state before the
+    first run, or the number of traced steps of a scheduled run would depend on whether an
+    earlier run of the same worker already used it."""
+    import ombott
+    ctx = Ctx()
+    set_ctx(ctx)
+    del _stack()[:]
+    ctx.apps = [ombott.default_app(), ombott.Ombott()]
+    for i, a in enumerate(ctx.apps):
+        install(ctx, a, i)
+    for i in (0, 1):
+        serve(ctx, {'app': i, 'm': 'W%d' % i, 'status': 200, 'ops': [['copy']], 'write_at': 0})
+    if ctx.problems:
+        raise HarnessError(f'warm-up request failed: {ctx.problems[:2]}')
+
+
 def build_apps(ctx, case):
     import ombott
     n = case['n_apps']
